@@ -479,6 +479,15 @@ func (prop) Run(c core.Case) core.Outcome {
 			cp = 0
 		}
 		M("cksum", fmt.Sprintf("cksum %d %s", cp, core.Hex(img)), showChecksums(ss.store))
+		// every store NewNVarStore accepts, hostile ones included: the entries end before the GUID table
+		// (Lean: parseStore_fso_le_gso, for every byte string; the defect of DESIGN §14 finding 51, fixed by
+		// fixes/C04-nvar-table-overlap.diff, reappears here if the guard is removed)
+		if ss.store.FreeSpaceOffset > ss.store.GUIDStoreOffset {
+			O("entries-below-guid-table", "FreeSpaceOffset <= GUIDStoreOffset",
+				fmt.Sprintf("FreeSpaceOffset %d > GUIDStoreOffset %d", ss.store.FreeSpaceOffset, ss.store.GUIDStoreOffset))
+		} else {
+			O("entries-below-guid-table", "FreeSpaceOffset <= GUIDStoreOffset", "FreeSpaceOffset <= GUIDStoreOffset")
+		}
 		if rc != nil && flags.wf {
 			// oracle from the recipe alone: which entries carry a checksum, and whether it holds
 			O("ext-checksum-report", rc.checksums(), showChecksums(ss.store))
